@@ -165,6 +165,26 @@ pub fn phases(tier: &str) -> Vec<Phase>
     }
 }
 
+/// the phases used when schedules are a secondary quantifier of the property
+pub fn phases_light(tier: &str) -> Vec<Phase>
+{
+    if tier == "thorough"
+    {
+        vec![
+            Phase { label: "preemption-bound-0", por: false, bound: Some(0), secs: 10.0 },
+            Phase { label: "dpor-unbounded", por: true, bound: None, secs: 60.0 },
+            Phase { label: "preemption-bound-1", por: false, bound: Some(1), secs: 20.0 },
+        ]
+    }
+    else
+    {
+        vec![
+            Phase { label: "dpor-unbounded", por: true, bound: None, secs: 2.0 },
+            Phase { label: "preemption-bound-0", por: false, bound: Some(0), secs: 0.3 },
+        ]
+    }
+}
+
 /// Explore every case in phases: plain preemption-bounded enumeration with small bounds
 /// first (so the first counterexample has the fewest preemptions), then the unbounded
 /// search with sleep sets.  Fills the report.
@@ -377,7 +397,7 @@ fn check(id: &str, tier: &str) -> i32
         {
             rep.assume("commands are deterministic functions of their declared sources (mini-shell cat); distinct writes carry distinct mtimes (strict clock)");
             let mut plans = vec![];
-            for (sc, q, t) in vec![(scen::s1_chain(), 6, 9), (scen::s3_multi(), 6, 9), (scen::s2_diamond(), 5, 8), (scen::s4_twins(), 5, 8), (scen::s5_variants(), 6, 9), (scen::s8_failures(), 5, 8)]
+            for (sc, q, t) in vec![(scen::s1_chain(), 6, 9), (scen::s3_multi(), 6, 9), (scen::s2_diamond(), 5, 8), (scen::s4_twins(), 5, 8), (scen::s5_variants(), 6, 9), (scen::s8_failures(), 5, 8), (scen::s10_bundle(), 4, 6), (scen::s11_three(), 5, 7)]
             {
                 let mut p = plan(sc, tiered(tier, q, t));
                 p.secs = secs;
@@ -389,7 +409,7 @@ fn check(id: &str, tier: &str) -> i32
         {
             rep.assume("as C01; the must-not-run obligation is asserted only when the harness's own record shows an earlier successful execution on identical sources, the needed contents were in the cache before the build, and no cache content is needed by two targets at once");
             let mut plans = vec![];
-            for (sc, q, t) in vec![(scen::s1_chain(), 6, 9), (scen::s3_multi(), 6, 8), (scen::s2_diamond(), 5, 8), (scen::s4_twins(), 6, 8), (scen::s5_variants(), 6, 9)]
+            for (sc, q, t) in vec![(scen::s1_chain(), 6, 9), (scen::s3_multi(), 6, 8), (scen::s2_diamond(), 5, 8), (scen::s4_twins(), 6, 8), (scen::s5_variants(), 6, 9), (scen::s11_three(), 5, 7), (scen::s10_bundle(), 4, 6)]
             {
                 let mut p = plan(sc, tiered(tier, q, t));
                 p.secs = secs;
@@ -408,6 +428,10 @@ fn check(id: &str, tier: &str) -> i32
                 plans.push(p);
             }
             run_hist_plans(&mut rep, id, plans);
+            // all explored schedules (end states of C03-C06) and all crash points of C11
+            let cases: Vec<SchedCase> = schedeng::success_cases(tier).into_iter().filter(|c| !c.name.starts_with("chain3")).collect();
+            run_sched_plans(&mut rep, id, cases, phases_light(tier), Oracles::only(id));
+            crate::crash::run_crash(&mut rep, tier, id);
         },
         "C09" =>
         {
@@ -470,13 +494,16 @@ fn check(id: &str, tier: &str) -> i32
         {
             rep.assume("Built = the rule's command is in this build's command log; Recovered = a rename from .ruler/cache onto the target; Up-to-date = no mutation touched the target");
             let mut plans = vec![];
-            for (sc, q, t) in vec![(scen::s1_chain(), 6, 9), (scen::s3_multi(), 6, 8), (scen::s4_twins(), 6, 8), (scen::s6_exec(), 6, 8), (scen::s8_failures(), 6, 8)]
+            for (sc, q, t) in vec![(scen::s1_chain(), 6, 9), (scen::s3_multi(), 6, 8), (scen::s4_twins(), 6, 8), (scen::s6_exec(), 6, 8), (scen::s8_failures(), 6, 8), (scen::s11_three(), 6, 8), (scen::s10_bundle(), 4, 6)]
             {
                 let mut p = plan(sc, tiered(tier, q, t));
                 p.secs = secs;
                 plans.push(p);
             }
             run_hist_plans(&mut rep, id, plans);
+            let mut cases: Vec<SchedCase> = schedeng::success_cases(tier);
+            cases.extend(schedeng::failure_cases(tier));
+            run_sched_plans(&mut rep, id, cases, phases_light(tier), Oracles::only(id));
         },
         "C03" =>
         {
@@ -492,7 +519,7 @@ fn check(id: &str, tier: &str) -> i32
             run_sched_plans(&mut rep, id, cases, phases(tier), Oracles::only("C04"));
             // follow-up histories (repair the cause, build again; break it again)
             let mut plans = vec![];
-            for (sc, q, t) in vec![(scen::s8_failures(), 6, 9), (scen::s1_chain(), 5, 8)]
+            for (sc, q, t) in vec![(scen::s8_failures(), 6, 9), (scen::s1_chain(), 5, 8), (scen::s12_multiline_failure(), 5, 7)]
             {
                 let mut p = plan(sc, tiered(tier, q, t));
                 p.secs = secs;
@@ -517,7 +544,7 @@ fn check(id: &str, tier: &str) -> i32
         "C11" =>
         {
             rep.assume("crash = the file system exactly as it was after some mutation (or after a strict prefix of the bytes of a write); corpus: rule sets whose from-scratch build succeeds; commands write atomically for the content-loss check");
-            crate::crash::run_crash(&mut rep, tier);
+            crate::crash::run_crash(&mut rep, tier, id);
         },
         "C12" =>
         {
@@ -716,6 +743,7 @@ pub fn main() -> i32
                 Err(e) => { eprintln!("machinery error: {}", e); 2 },
             }
         },
+        "c16-child" => crate::enum_state::child_main(&tier),
         "dpor-debug" =>
         {
             let case = schedeng::case_by_name(&pos[0]).expect("case");
